@@ -32,6 +32,7 @@ CAL_CONFIGS = [
     (COSMO_BASE, 2),
 ]
 
+CASE_LINE_SAMPLE = 0.3
 GEN_BFS = dict(MAXDEPTH=2, MAXWIDTH=2, MAXSIZE=4, MAXDIRS=0, MAXALIAS=0, MAXFRAGS=0, ORDERED=1)
 GEN_BFS_T = dict(MAXDEPTH=2, MAXWIDTH=2, MAXSIZE=5, MAXDIRS=1, MAXALIAS=1, MAXFRAGS=1, ORDERED=1)
 GEN_SIM = dict(MAXDEPTH=3, MAXWIDTH=3, MAXSIZE=9, MAXDIRS=2, MAXALIAS=2, MAXFRAGS=2, ORDERED=0)
@@ -257,14 +258,19 @@ def decide_and_validate(ctx, cases_by_id, results, entry_index, entries, quick, 
     lines = []
     meta = []
     seen = set()
+    judged = set()
     for r in results:
         if r.get("panic") or r.get("engineErr") or r.get("badBody") or not r["hasData"]:
             continue
         c = cases_by_id[r["id"]]
         e = entry_index[r["entry"]]
-        lines.append({"k": "c", "id": r["id"], "e": e, "u": r["u"] + 1, "sg": 0, "doc": c["doc"], "vars": c["vars"],
-                      "data": r["data"], "err": r["hasErrors"]})
-        meta.append(("c", r, None))
+        # client observations: all of them were compared with the expectation TLC generated; TLC re-judges the recorded
+        # line itself for every flagged one and for a seed-selected sample (quick) / all (thorough)
+        if (r["id"], r["u"]) in flagged or not quick or rng.random() < CASE_LINE_SAMPLE:
+            judged.add((r["id"], r["u"]))
+            lines.append({"k": "c", "id": r["id"], "e": e, "u": r["u"] + 1, "sg": 0, "doc": c["doc"], "vars": c["vars"],
+                          "data": r["data"], "err": r["hasErrors"]})
+            meta.append(("c", r, None))
         for x in r["exchanges"]:
             if x.get("invalid") or x.get("doc") is None:
                 continue
@@ -275,7 +281,7 @@ def decide_and_validate(ctx, cases_by_id, results, entry_index, entries, quick, 
             lines.append({"k": "x", "id": r["id"], "e": e, "u": r["u"] + 1, "sg": x["sg"] + 1, "doc": x["doc"], "vars": x["binds"],
                           "data": x["data"], "err": x["hasErr"]})
             meta.append(("x", r, x))
-    nchunks = max(1, min(8, len(lines) // 300))
+    nchunks = max(1, min(4 if quick else 8, len(lines) // 300))
     order = list(range(len(lines)))
     chunks = [order[i::nchunks] for i in range(nchunks)]
     bad_total = []
@@ -311,13 +317,13 @@ def decide_and_validate(ctx, cases_by_id, results, entry_index, entries, quick, 
                 sim_mismatch.append((r, x, verdict))
     # the two judges (python comparison with the generated expectation, TLC on the recorded line) must agree
     for k, cls in flagged.items():
-        if cls in ("data", "errors") and k not in tlc_flagged:
+        if cls in ("data", "errors") and k in judged and k not in tlc_flagged:
             raise lib.Inconclusive("python comparison flagged case %s/u%d (%s) but TLC accepted the recorded observation — harness problem" % (k[0], k[1], cls))
     if sim_mismatch:
         r, x, verdict = sim_mismatch[0]
         print("simulator answer differs from the spec's re-derivation:", x["sgName"], x["query"], json.dumps(x["vars"]), "->", json.dumps(x["resp"]), verdict)
         raise lib.Inconclusive("the Go subgraph simulator disagrees with Exec(Sub(..)) on %d exchanges — harness problem, not a verdict about the code" % len(sim_mismatch))
-    return len(lines), sum(1 for m in meta if m[0] == "x")
+    return len(lines), sum(1 for m in meta if m[0] == "x"), len(judged)
 
 
 def run_driver(ctx, binary, catalog_path, cases, tag):
@@ -396,7 +402,7 @@ def run(ctx):
     # ---- 4. replay --------------------------------------------------------------------------------
     results = run_driver(ctx, binary, catalog_path, cases, "all")
     # ---- 5./6. decide + validate ------------------------------------------------------------------
-    nlines, nx = decide_and_validate(ctx, cases_by_id, results, entry_index, entries, quick, rng)
+    nlines, nx, ncl = decide_and_validate(ctx, cases_by_id, results, entry_index, entries, quick, rng)
     distinct = {(r["id"], r["u"]) for r in results if nontrivial(r)}
     samples = []
     for r in results:
@@ -413,6 +419,7 @@ def run(ctx):
         "catalog_entries": [e["name"] for e in entries],
         "generated_and_replayed": stats,
         "subgraph_exchanges_validated": nx,
+        "client_observations_rejudged_by_tlc": ncl,
         "calibration_items_compared": ncal,
         "exhaustive": False,
     })
